@@ -79,18 +79,21 @@ class HostPool(object):
 
         yield from self._condition.acquire()
 
-        while True:
-            if self.ready:
-                connection = self.ready.pop()
-                break
-            elif len(self.busy) < self.max_connections:
-                connection = self._connection_factory()
-                break
-            else:
-                yield from self._condition.wait()
+        try:
+            while True:
+                if self.ready:
+                    connection = self.ready.pop()
+                    break
+                elif len(self.busy) < self.max_connections:
+                    connection = self._connection_factory()
+                    break
+                else:
+                    yield from self._condition.wait()
 
-        self.busy.add(connection)
-        self._condition.release()
+            self.busy.add(connection)
+        finally:
+            # A cancelled wait() returns with the lock re-acquired.
+            self._condition.release()
 
         return connection
 
@@ -197,16 +200,17 @@ class ConnectionPool(object):
 
         _logger.debug('Check out %s', key)
 
-        connection = yield from host_pool.acquire()
-        connection.key = key
+        try:
+            connection = yield from host_pool.acquire()
+            connection.key = key
 
-        # TODO: Verify this assert is always true
-        # assert host_pool.count() <= host_pool.max_connections
-        # assert key in self._host_pools
-        # assert self._host_pools[key] == host_pool
-
-        with (yield from self._host_pools_lock):
-            self._host_pool_waiters[key] -= 1
+            # TODO: Verify this assert is always true
+            # assert host_pool.count() <= host_pool.max_connections
+            # assert key in self._host_pools
+            # assert self._host_pools[key] == host_pool
+        finally:
+            with (yield from self._host_pools_lock):
+                self._host_pool_waiters[key] -= 1
 
         return connection
 
